@@ -492,7 +492,7 @@ pub mod g {
     }
 
     pub fn gen(r: &mut Rng, thorough: bool, v: &mut Vec<(String, String)>) {
-        let n = if thorough { 1200 } else { 160 };
+        let n = if thorough { 1200 } else { 120 };
         for it in 0..n {
             let lat = it % 2 == 0;
             let nsub = 6 + r.below(5);
